@@ -481,6 +481,32 @@ Section Flows.
     mkOut cdone (Some (mkEnd (Ts3 ++ [MFin v3]) ks ch' sh)) [vs; vc] [ks; kc] dl (0, 0)
     end end.
 
+  (* the ServerHello that reaches the client in run12 / run12r (None: the run stops before the client sees one) *)
+  Definition client_sees12 (a1 a2 : list msg -> list msg) : option shello :=
+    let? ch' := get_ch (a1 [MCH c_hello]) else None in
+    match server_front ch' with
+    | SelErr _ => None
+    | SelOk v =>
+    if v >=? TLS13 then None else
+    let? (sh0, rest) := s_reply12 v ch' else None in
+    let sh := set_tail sh0 (sentinel_for smax v (sh_tail sh0)) in
+    let? (sh', rest') := get_sh_flight (a2 (MSH sh :: rest)) else None in
+    Some sh'
+    end.
+
+  Definition client_sees12r (a1 a2 : list msg -> list msg) : option shello :=
+    let? ch' := get_ch (a1 [MCH c_hello]) else None in
+    match server_front ch' with
+    | SelErr _ => None
+    | SelOk v =>
+    if v >=? TLS13 then None else
+    let? (sh0, ks) := s_resume v ch' else None in
+    let sh := set_tail sh0 (sentinel_for smax v (sh_tail sh0)) in
+    let vs := fin ks L_SERVER (hash (alg_of sh) [MCH ch'; MSH sh]) in
+    let? (sh', rest') := get_sh_flight (a2 [MSH sh; MFin vs]) else None in
+    Some sh'
+    end.
+
   (* ============ TLS 1.3: full, HelloRetryRequest, PSK ============================ *)
   (* binders of a ClientHello over (transcript so far ++ truncated hello): update_binders *)
   Definition binders_for (alg : Z -> Z) (pre : transcript) (c : chello) : list (list Z) :=
